@@ -14,7 +14,7 @@ LEVEL = "fault_enumeration"
 COMPONENTS = {
     "real": COMPONENTS["real"] + ["ZukoFlow (quick + thorough) and FlowJax (thorough): proposal saved into the run file by sample_posterior and reloaded by resume_from_file"],
     "stub": COMPONENTS["stub"],
-    "not_run": ["blackjax", "real minipcn / orng / emcee"],
+    "not_run": ["real blackjax (BlackJAXSMC itself runs, on the jax-written random-walk stand-in)", "real minipcn / orng / emcee"],
 }
 RULE = (
     "case = one swarm-drawn SMC scenario (target x dims x schedule options x cadence x n_final_samples x "
@@ -46,7 +46,13 @@ def gen_cases(seed, tier):
     # starts from must not depend on state that only the interrupted process had
     for j in range(1 if tier == "quick" else 6):
         out.insert(2 + j, crash_case(ID, seed, 71000 + j, tier=tier, real_flow="zuko", xp=("torch", "numpy", "jax")[j % 3], flowpre=True))
-    return out
+    # BlackJAXSMC (stand-in random-walk blackjax): its random source is the jax key the caller supplies plus the generator;
+    # crash at every eager likelihood call, resume from the last payload the callback received
+    from . import c05_blackjax
+
+    bj = c05_blackjax.cases(ID, seed, tier, n_quick=3, n_thorough=48)
+    out[3:3] = bj[:1]
+    return out + bj[1:]
 
 
 def real_flow_scenario(case):
@@ -85,6 +91,10 @@ def real_flow_scenario(case):
 def scenario_of(case):
     if "scenario" in case:
         return case["scenario"]
+    if case.get("kind") == "blackjax":
+        from . import c05_blackjax
+
+        return c05_blackjax.scenario(case)
     if case.get("real_flow"):
         return real_flow_scenario(case)
     quick = case.get("tier") == "quick"
@@ -100,6 +110,10 @@ def scenario_of(case):
 
 def run_case(case, workdir):
     scn = scenario_of(case)
+    if case.get("kind") == "blackjax":
+        from . import c05_blackjax
+
+        return c05_blackjax.judge_resume(case, workdir, scn)
     quick = case.get("tier") == "quick"
     rng = rng_from(case["fault_seed"])
     res = explore(
@@ -152,6 +166,8 @@ def aggregate(outcomes):
 
 
 def shrink_candidates(case):
+    if case.get("kind") == "blackjax":
+        return []  # the scenario is already small; the generic shrinkers assume the numpy model
     scn = scenario_of(case)
     base = {k: v for k, v in case.items() if k not in ("scenario",)}
     out = []
